@@ -450,6 +450,30 @@ def impl_flat_async(case):
     world.perform = lambda a: None
     cname = case.get('cls', 'AsyncMachine')
     loop = asyncio.new_event_loop()
+    asyncio.set_event_loop(loop)
+    base = world.recorder
+
+    def arecorder(slot, cb, model_of_call=None):
+        """three kinds of callbacks: plain function; coroutine function that suspends before it logs itself; plain
+        function RETURNING an awaitable (a Task) that does the same - the library must await all of them"""
+        inner = base(slot, cb, model_of_call)
+        kind = cb % 3
+        if kind == 0 or not case.get('awaitables'):
+            return inner
+
+        async def co(*args, **kwargs):
+            for _ in range(1 if kind == 1 else 5):     # long enough for a later stage to overtake a result that is not awaited
+                await asyncio.sleep(0)
+            return inner(*args, **kwargs)
+        if kind == 1:
+            co.__name__ = inner.__name__
+            return co
+
+        def returns_task(*args, **kwargs):
+            return asyncio.ensure_future(co(*args, **kwargs))
+        returns_task.__name__ = inner.__name__
+        return returns_task
+    world.recorder = arecorder
     try:
         machine, model = build_machine(case, world, cls=get_class(cname), extra_kwargs=class_kwargs(cname))
         world.model_ids[id(model)] = case.get('model', 0)
